@@ -131,6 +131,18 @@ Act_C12_resume ==
          /\ \A r \in SeqToSet(s.rel) : ~\E i \in 1..Len(w) : w[i].p.t = "PUBLISH" /\ w[i].p.id = r.id
          /\ (sess'[a].queue = <<>> \/ Len(sess'[a].pub) >= conn'[a].window)
          /\ Fires(fx') = <<FireOk(conn[a].cd, VBool(stim'.p.session))>>]_vars
+\* C12 (last sentence): the CONNACK step neither fails nor re-sends what was requested on the new connection itself
+Act_C12_fresh ==
+  [][\A a \in Addr :
+       (stim'.op = "recv" /\ stim'.a = a /\ stim'.p.t = "CONNACK" /\ stim'.p.code = 0 /\ conn[a].ps = "connecting") =>
+         LET s == sess[a]  fresh == {r \in SeqToSet(s.pub) \cup SeqToSet(s.rel) \cup SeqToSet(s.sub) \cup SeqToSet(s.unsub) : r.live} IN
+         \A r \in fresh : /\ ~\E i \in 1..Len(fx') : fx'[i].k = "fire" /\ fx'[i].d = r.d
+                          /\ ~\E i \in 1..Len(fx') : fx'[i].k = "write" /\ "id" \in DOMAIN fx'[i].p /\ fx'[i].p.id = r.id
+                                                       /\ fx'[i].p.t \in {"PUBLISH", "PUBREL", "SUBSCRIBE", "UNSUBSCRIBE"}
+                          /\ r.d \in {x.d : x \in AllReqs(a)}']_vars
+\* C07 (last sentence): a pending SUBSCRIBE / UNSUBSCRIBE is never left without a running retry timer on a live connection
+Inv_C07_live == \A a \in Addr : Up(a) => \A r \in SeqToSet(sess[a].sub) \cup SeqToSet(sess[a].unsub) : r.live
+
 \* C09: once the PUBREL of an identifier has been written its PUBLISH is never written again; PUBREL only after PUBREC
 Act_C09 == [][\A i \in 1..Len(fx') :
                  /\ (fx'[i].k = "write" /\ fx'[i].p.t = "PUBLISH" /\ fx'[i].p.qos = 2) => ~Has(sess[fx'[i].a].rel, fx'[i].p.id)
@@ -152,7 +164,7 @@ Act_C14_pkt == [][(stim'.op = "recv" /\ stim'.p.t \in BrokerTypes /\ ~Handles(st
 \* C18: nothing is written before connect(), after disconnect() or after the loss; CONNECT only by connect(), DISCONNECT only by disconnect()
 Act_C18 == [][\A i \in 1..Len(fx') : fx'[i].k = "write" =>
                  LET a == fx'[i].a  k == conn[a] IN
-                 /\ fx'[i].g = k.g /\ k.tr # "lost" /\ k.ps # "disconnecting"
+                 /\ fx'[i].g = k.g /\ k.tr \notin {"lost", "closing"} /\ k.ps # "disconnecting"     \* closing = DISCONNECT has been written
                  /\ (fx'[i].p.t = "CONNECT" <=> (stim'.op = "connect" /\ i = 1))
                  /\ (fx'[i].p.t = "DISCONNECT" => stim'.op = "disconnect" /\ fx'[i + 1] = Close(a, k.g, "lose"))
                  /\ ClientPacket(fx'[i].p)]_vars
